@@ -7,9 +7,14 @@ import replies_check
 def run(ctx):
     standard_lean_phase(ctx)
     n = 250 if ctx.tier == "quick" else 6000
-    fails = CC.run_scenarios(ctx, "C04", n, steps=60)
+    # the recorded findings first, as fixed scripts (lib/directed.py): reported as KNOWN-FINDING while they are still present
+    import directed
+    fails = []
+    for cls in (directed.F25, directed.F26, directed.F24):
+        fails += CC.run_scenarios(ctx, "C04", 1, scenario_cls=cls, seeds=[0])
+    fails += CC.run_scenarios(ctx, "C04", n, steps=60)
     ctx.cov["rule"] = ("generated scenarios through the real mqtt_client on the scripted stream: API calls (publish QoS 0/1/2 with properties, subscribe, unsubscribe, receive, per-operation "
-                       "cancellation signals), a broker (acks with reason codes/properties, inbound QoS 0/1/2 messages, held-back replies), byte chunking, connection loss with partial delivery, "
+                       "cancellation signals), a broker (acks with reason codes/properties, inbound QoS 0/1/2 messages, held-back replies), byte chunking, connection loss with partial delivery, the broker's retransmissions after a reconnect (PUBLISH with DUP, PUBREL), "
                        "reconnects with changing Receive Maximum / Server Keep Alive / Session Present, virtual time, then a fault-free suffix and cancel() or async_disconnect; "
                        "the C04 monitor runs on every transcript; non-trivial = distinct scenario with >= 2 (re)connections and > 3 operations")
     found_s = replies_check.run(ctx, 300 if ctx.tier == "quick" else 20000)
